@@ -46,7 +46,8 @@ CHECKS = {
             ("R-NORM.c03", "r_norm", "run_c03", ("quick", "thorough"))],
     "C13": [("R-MPFZERO", "r_mpfzero", "run", ("quick", "thorough")),
             ("R-EXTENT.c13", "r_alias", "run_c13", ("quick", "thorough"))],
-    "C12": [("R-SIGN", "r_sign", "run", ("quick", "thorough"))],
+    "C12": [("R-SIGN", "r_sign", "run", ("quick", "thorough")),
+            ("R-DENONE", "r_sign", "run_den_one", ("quick", "thorough"))],
     "C07": [("R-SIGN.c07", "r_sign", "run_c07", ("quick", "thorough"))],
     "C14": [("R-PURE", "r_assert", "run_pure", ("quick", "thorough")),
             ("R-CONSTASSERT", "r_assert", "run_constassert", ("quick", "thorough")),
@@ -98,6 +99,7 @@ RULES = {
     "R-NORM.c03": ("r_norm", "run_c03"),
     "R-SIGN": ("r_sign", "run"),
     "R-SIGN.c07": ("r_sign", "run_c07"),
+    "R-DENONE": ("r_sign", "run_den_one"),
 }
 
 EXPLANATION = {
@@ -207,6 +209,9 @@ EXPLANATION = {
 }
 
 ASSUMPTIONS = {
+    "R-DENONE": ["only literal 1 stores into the size of the denominator of a rational the function was given are judged; 'the limbs are written' means "
+                 "any store through the denominator's limb pointer (or a local pointer derived from it), or a callee that gets the denominator or its "
+                 "limb pointer as a destination - the value stored is not examined"],
     "R-SIGN.c07": ["same engine and assumptions as R-SIGN; object-pointer parameters that the function redirects (MPZ_SRCPTR_SWAP) name any of "
                    "the objects they are ever assigned: reads through them are inexact, writes are weak updates",
                    "the table of documented non-negative results (py/r_sign.py NONNEG_RESULTS) is read off the manual's number-theoretic chapter"],
